@@ -410,7 +410,10 @@ def sc_epoch(exe):
 SCENARIOS = [("single", lambda x: sc_single(x)), ("double-gap0", lambda x: sc_double(x, 0)), ("double-gap1", lambda x: sc_double(x, 1)),
              ("double-gap2", lambda x: sc_double(x, 2)), ("cancel-gap0", lambda x: sc_cancel(x, 0)),
              ("cancel-gap1", lambda x: sc_cancel(x, 1)), ("cancel-gap2", lambda x: sc_cancel(x, 2)),
-             ("cancel-S", lambda x: sc_cancel(x, 0, S=1)), ("lone-tstp", sc_lone_tstp), ("batch", sc_batch),
+             ("cancel-S", lambda x: sc_cancel(x, 0, S=1)),
+             # the clock set BACK between the two signals (the signed difference is negative = within INTR_TIME; an unsigned
+             # one would be huge; the model's truncated subtraction gives 0: Dsh/SignalsClock.lean c_test_any_order)
+             ("double-back5", lambda x: sc_double(x, -5)), ("cancel-back5", lambda x: sc_cancel(x, -5)), ("lone-tstp", sc_lone_tstp), ("batch", sc_batch),
              ("early", lambda x: sc_early(x, 0)), ("early-batch", lambda x: sc_early(x, 1)), ("late", sc_late)]
 
 
